@@ -57,6 +57,49 @@ pub fn data_pattern(rng: &mut Rng, len: usize, pat: u64) -> Vec<u8> {
     }
 }
 
+/// Payloads that look like the protocol itself: complete wire lines of other messages (with and without the
+/// line terminator, nested once more), bare terminators and start codes, ASCII hex text.  A decoder or a
+/// message mapping that "sees through" such content is keyed on it; data is opaque to the protocol.
+pub fn structured_payloads() -> Vec<Vec<u8>> {
+    let mut v: Vec<Vec<u8>> = vec![];
+    let inner: Vec<(u16, u8, Vec<u8>)> = vec![
+        (3, 2, vec![0xFF]),
+        (0x7F, 4, vec![0x0F]),
+        (0, 1, vec![]),
+        (0x10, 0, vec![1, 2, 3, 4]),
+        (0xFFFF, 0x42, vec![]),
+        (3, 0, (0..16u8).collect()),
+        (5, 6, vec![0]),
+    ];
+    for (a, t, d) in &inner {
+        let w = indep_enc(*a, *t, d);
+        let mut wnl = w.clone();
+        wnl.extend_from_slice(b"\r\n");
+        v.push(w.clone());
+        v.push(wnl.clone());
+        // nested once more when it still fits
+        if wnl.len() <= 120 {
+            let mut w2 = indep_enc(0x20, 0, &wnl);
+            w2.extend_from_slice(b"\r\n");
+            if w2.len() <= 255 {
+                v.push(w2);
+            }
+        }
+        // a line with a broken checksum, and one with trailing junk
+        let mut bad = wnl.clone();
+        let k = bad.len() - 3;
+        bad[k] = if bad[k] == b'0' { b'1' } else { b'0' };
+        v.push(bad);
+        let mut junk = wnl.clone();
+        junk.push(0);
+        v.push(junk);
+    }
+    for t in [&b":"[..], b"\r\n", b"\n", b"\r", b":\r\n", b":00000001FF\r\n", b":00000001FF", b"0123456789ABCDEF", b"::", b"\r\n\r\n"] {
+        v.push(t.to_vec());
+    }
+    v
+}
+
 pub fn random_len(rng: &mut Rng) -> usize {
     match rng.below(10) {
         0 => 0,
@@ -121,7 +164,28 @@ fn c01(thorough: bool, rng: &mut Rng, out: &mut Out) {
             out.fail(i, format!("C01 Data::try_new({} bytes) gave '{}', expected '{}'", n, out.impls[i], want));
         }
     }
+    // lengths far past the boundary, around every power of two a truncating cast or a mask could drop
+    // (zeroed allocations of this size are never touched, so they cost address space only)
+    let mut huge: Vec<usize> = vec![];
+    for sh in [9u32, 10, 12, 15, 16, 17, 20, 24, 31, 32, 33] {
+        let b = 1usize << sh;
+        for n in [b - 1, b, b + 1, b + 3, b + 255, b + 256] {
+            huge.push(n);
+        }
+    }
+    for n in huge {
+        let i = out.case(format!("data {}", n), true);
+        out.stat("data.huge-length");
+        let want = format!("err toolong 255 {}", n);
+        if out.impls[i] != want {
+            out.fail(i, format!("C01 Data::try_new({} bytes) gave '{}', expected '{}'", n, out.impls[i], want));
+        }
+    }
     let mut frames = seed_frames(thorough, rng);
+    for d in structured_payloads() {
+        frames.push((0x0010, 0, d.clone()));
+        frames.push((0x0003, 0x42, d));
+    }
     // content sweeps: every data length with uniform / counting payloads, and every byte value alone, doubled and
     // as a full 16-byte chunk (a shortcut keyed on the payload's content, or one wrong table entry, must show)
     for len in 0..=255usize {
@@ -741,6 +805,31 @@ fn c04(thorough: bool, rng: &mut Rng, out: &mut Out) {
             }
         }
     }
+    // short frames whose tail looks like a terminator, padding or a start code: every type 0..=8 and 0x42,
+    // every first byte, one- and two-byte tails from the special set (a "lenient" reading that looks through
+    // such a tail must show)
+    let special: [u8; 7] = [0x00, 0x0D, 0x0A, 0x3A, 0xFF, 0x20, 0x30];
+    for ty in (0..=8u8).chain([0x42u8]) {
+        for first in 0..=255u8 {
+            if !thorough && ty > 6 && first % 16 != 0 {
+                continue;
+            }
+            for &t1 in &special {
+                out.stat("f2m.special-tail");
+                f2m_case(out, 3, ty, &[first, t1]);
+            }
+            for (t1, t2) in [(0x0Du8, 0x0Au8), (0x0A, 0x0D), (0x00, 0x00), (0xFF, 0xFF), (0x0D, 0x00), (0x20, 0x20), (0x3A, 0x30)] {
+                out.stat("f2m.special-tail");
+                f2m_case(out, 0xABCD, ty, &[first, t1, t2]);
+            }
+        }
+    }
+    for d in structured_payloads() {
+        for ty in [0u8, 1, 2, 3, 4, 5, 6, 0x42] {
+            out.stat("f2m.structured-payload");
+            f2m_case(out, 0x10, ty, &d);
+        }
+    }
     // recognised codes over the address range
     let mut codes: Vec<(u8, Vec<u8>)> = vec![(1, vec![]), (2, vec![0xFF]), (2, vec![0x00]), (2, vec![0x55]), (6, vec![0x00])];
     for c in STATE_CODES {
@@ -810,6 +899,12 @@ pub fn specific_messages(thorough: bool, rng: &mut Rng) -> Vec<Message<'static>>
             let mut z = vec![0u8; len];
             z[len - 1] = 0x5A;
             v.push(Message::SendData(Offset(64), Data::try_new(z).unwrap()));
+        }
+    }
+    // payloads that look like the protocol itself (a wire line inside the data, terminators, start codes)
+    for d in structured_payloads() {
+        for off in [0u16, 0x10, 0xFFF0] {
+            v.push(Message::SendData(Offset(off), Data::try_new(d.clone()).unwrap()));
         }
     }
     // SendData that collides in shape with other kinds' frames: one byte equal to a known code
@@ -1050,6 +1145,12 @@ pub fn page_sizes(thorough: bool) -> Vec<(u32, u32)> {
         v.push(t.dimensions());
     }
     v.extend_from_slice(&[(255, 255), (1020, 16), (4096, 1)]);
+    // tall pages: the bytes of one column no longer fit 8 bits (height > 2040) or 16 bits (height > 524280),
+    // so a narrowed cached stride or a truncating cast shows at the second column
+    v.extend_from_slice(&[(2, 2041), (2, 524281)]);
+    if thorough {
+        v.extend_from_slice(&[(3, 2048), (3, 524288), (2, 600001)]);
+    }
     v
 }
 
@@ -1234,7 +1335,17 @@ fn c06(thorough: bool, rng: &mut Rng, out: &mut Out) {
                 let y = rng.below(h as u64) as u32;
                 let kind = if borrowed && line.ends_with(&format!(":{}", seed)) && rng.chance(40) { 0 } else { rng.below(10) };
                 let v = if kind == 0 { rng.chance(50) } else { rng.chance(60) };
-                let probes: Vec<(u32, u32)> = (0..16).map(|_| (rng.below(w as u64) as u32, rng.below(h as u64) as u32)).collect();
+                // sampled probes on big pages: random pixels plus the likely aliases of (x, y) — the same row in
+                // other columns, the same column in neighbouring bytes / bits
+                let mut probes: Vec<(u32, u32)> = (0..16).map(|_| (rng.below(w as u64) as u32, rng.below(h as u64) as u32)).collect();
+                for xx in (0..w.min(8)).chain(w.saturating_sub(8)..w) {
+                    probes.push((xx, y));
+                }
+                for d in [1u32, 7, 8, 9, 64, 256, 2048] {
+                    probes.push((x, (y + d) % h));
+                    probes.push((x, (y + h - d % h) % h));
+                    probes.push(((x + 1) % w, (y + d) % h));
+                }
                 match kind {
                     0 => {
                         line.push_str(&format!(" a,{}", v as u8));
